@@ -3,6 +3,7 @@ package checks
 import (
 	"fmt"
 	"math"
+	"strconv"
 	"strings"
 
 	"pgregory.net/rapid"
@@ -22,6 +23,7 @@ type C03Case struct {
 	Doc       map[string]any    `json:"doc"`
 	Env       Envelope          `json:"env,omitempty"`      // irrelevant options / table representation / repeated execution
 	Limit     int               `json:"limit,omitempty"`    // LIMIT n (n >= 1) on the aggregate query; 0 = none
+	Scale     *Scale            `json:"scale,omitempty"`    // large table: t is expanded from the rows of the document by this recipe (one grouping column spread over many keys) before anything is computed
 	GoTypes   map[string]string `json:"go_types,omitempty"` // numeric columns handed over as native Go values of that type
 	Shape     string            `json:"shape"`              // group | whole | groupagg
 	GroupCols []string          `json:"group_cols,omitempty"`
@@ -39,7 +41,7 @@ func init() {
 		ID:    "C03",
 		Title: "GROUP BY partitions rows; aggregates cover exactly their group and honour WHERE",
 		Rule: "rapid draws a table with 1-3 low-cardinality grouping columns (strings incl. several spellings of one number and blanks / numbers, also as native Go types and as int64 / uint64 beyond 2^53 / NULL or missing keys) and 2-3 numeric value " +
-			"columns (some nullable), 0-10 rows, and a query of shape group (GROUP BY with keys, 1-5 aggregates incl. the same function on " +
+			"columns (some nullable), 0-10 rows (about 4% of the cases: 200-700 rows built from the drawn rows in a drawn arrangement, one grouping column spread over 2-400 distinct keys in a drawn order of first appearance), and a query of shape group (GROUP BY with keys, 1-5 aggregates incl. the same function on " +
 			"different columns, optional *, WHERE, HAVING with aggregates under comparisons, [NOT] BETWEEN, IS [NOT] NULL, [NOT] IN, unary minus and arithmetic), whole (all-aggregate list without GROUP BY, with/without WHERE, incl. empty input) or " +
 			"groupagg (all-aggregate list with GROUP BY), a quarter of them with a trailing LIMIT n >= 1 (which only trims the output sequence); oracle = reference grouping in first-appearance order (sequence equality), three " +
 			"executions must agree, conservation law sum(COUNT(*)) = |rows passing WHERE|, groups pairwise distinct. Non-trivial: >=2 groups " +
@@ -116,6 +118,26 @@ func genC03(t *rapid.T) any {
 			c.Pool = append(c.Pool, rapid.SampledFrom([]float64{-3, -1.5, 0, 1, 2, 2.5, 4, 10, 100.25}).Draw(t, fmt.Sprintf("v%d.p%d", i, j)))
 		}
 		sch.valCols = append(sch.valCols, c)
+	}
+	// scale: a large table with many groups. The keys join the pool of one grouping column (so WHERE / HAVING
+	// constants and Go types fit them); the case keeps the few rows drawn below plus the recipe, Check expands it
+	scale := genScale(t, 14, "scale")
+	if scale != nil {
+		var scalePool []any
+		nScaleKeys := rapid.SampledFrom([]int{2, 31, 32, 33, 40, 64, 100, 150, 250, 400}).Draw(t, "scale.keys")
+		gc := &sch.groupCols[rapid.IntRange(0, ng-1).Draw(t, "scale.col")]
+		for j := 0; j < nScaleKeys; j++ {
+			switch gc.Kind {
+			case "str":
+				scalePool = append(scalePool, strconv.Itoa(j))
+			case "int":
+				scalePool = append(scalePool, float64(j))
+			default:
+				scalePool = append(scalePool, float64(j)*0.5)
+			}
+		}
+		gc.Pool = append(gc.Pool, scalePool...)
+		scale.genKeys(t, gc.Name, scalePool, "scale.key")
 	}
 	nr := genRowCount(t, 0, 10, "nrows")
 	rows := []any{}
@@ -263,6 +285,9 @@ func genC03(t *rapid.T) any {
 		if strings.HasPrefix(c.GoTypes[a.Col], "big") {
 			delete(c.GoTypes, a.Col) // aggregated: SUM / AVG of such values is a different matter
 		}
+	}
+	if len(rows) > 0 {
+		c.Scale = scale
 	}
 	c.SQL = renderC03(c)
 	return c
@@ -516,6 +541,13 @@ func refC03(c *C03Case) ([]any, int, []refGroup, error) {
 
 func checkC03(c *C03Case) Result {
 	res := Result{}
+	if c.Scale != nil {
+		cc := *c
+		cc.Doc, cc.Scale = c.Scale.ExpandDoc(c.Doc, "t"), nil
+		res = checkC03(&cc)
+		res.Labels = append(res.Labels, "large-table")
+		return res
+	}
 	want, passed, groups, err := refC03(c)
 	if err != nil {
 		discardOrHarness(&res, err)
@@ -565,6 +597,9 @@ func checkC03(c *C03Case) Result {
 	if len(rows) == 0 {
 		res.Labels = append(res.Labels, "empty-table")
 	}
+	if len(groups) >= 32 {
+		res.Labels = append(res.Labels, "groups>=32")
+	}
 	res.Labels = dedup(res.Labels)
 	big := false
 	for _, g := range groups {
@@ -585,17 +620,17 @@ func checkC03(c *C03Case) Result {
 		out := c.exec(c.SQL)
 		res.Execs++
 		if !out.OK() {
-			res.Violation = fmt.Sprintf("%s\n  expected rows %s\n  got %s", c.SQL, val.JSON(want), out.Describe())
+			res.Violation = fmt.Sprintf("%s\n  expected rows %s\n  got %s", c.SQL, rowsText(want), out.Describe())
 			return res
 		}
 		if i == 0 {
 			first = out.Rows
 			if d := diffRows(out.Rows, want); d != "" {
-				res.Violation = fmt.Sprintf("%s\n  %s\n  expected rows %s\n  got      rows %s", c.SQL, d, val.JSON(want), val.JSON(out.Rows))
+				res.Violation = fmt.Sprintf("%s\n  %s\n  expected rows %s\n  got      rows %s", c.SQL, d, rowsText(want), rowsText(out.Rows))
 				return res
 			}
 		} else if !seqEqual(out.Rows, first) {
-			res.Violation = fmt.Sprintf("%s\n  execution %d returned a different sequence: %s vs first %s", c.SQL, i+1, val.JSON(out.Rows), val.JSON(first))
+			res.Violation = fmt.Sprintf("%s\n  execution %d returned a different sequence: %s vs first %s", c.SQL, i+1, rowsText(out.Rows), rowsText(first))
 			return res
 		}
 	}
